@@ -27,13 +27,19 @@ def run(ctx):
         ctx, harness="hC19", extracted="C19_model", driver_dir="C19",
         rule=("unit cases: one real postprocessor object, Process called under recover (var/header: once per listed header "
               "value; assert/response http+grpc; var/xpath; var/jsonpath); engine cases: real uri provider + http gun, real http/scenario provider + gun, real http2 gun (HTTP/2 TLS target), real connect gun (tunnel endpoint; "
-              "each case in a child process), with generated gun options, under the real engine against a scripted misbehaving TCP target. non-trivial: "
+              "each case in a child process), with generated gun options, under the real engine against a scripted misbehaving TCP target; "
+              "responses announcing sizes they do not have (Content-Length / chunk sizes up to 2^63-1; 2^31 and more in a child process); "
+              "targets given by host name that refuse connections while the config is decoded and accept from the start of the run "
+              "(process-wide DNS-caching dialer, 2-16 instances dialling together; child process). non-trivial: "
               "var/header chains containing substr with a non-empty value; assert cases with at least one condition; xpath "
               "cases whose expression is not a node set; every jsonpath case; engine cases with >1 step or a scenario; "
               "distinct = distinct case lines. Library outcomes (xpath value kind, json/jsonpath success) are inputs of the "
               "model and are taken from the observation; lower/upper/replace with an empty pattern are generated on ASCII only"),
         key_fn=key_fn,
-        translators=[("gofn-mp", "GoFnMpGen.v")], bridge_files=["Gen/GoFnMp_bridge.v"],
+        translators=[("gofn-mp", "GoFnMpGen.v"), ("lockflow", "LockFlowGen.v")],
+        # Properties/C19_wire.v: announced-versus-arriving body sizes and the lock-flow theorems (extra obligations);
+        # Gen/LockFlow_bridge.v: the check evaluated on the skeletons re-read from lib/netutil/dial.go
+        bridge_files=["Gen/GoFnMp_bridge.v", "Gen/LockFlow_bridge.v", "Properties/C19_wire.v"],
         trusted=[
             "extraction: ExtrOcamlBasic only; OCaml driver ocaml/C19/main.ml (incl. its copy of str.ParseStringFunc for modifier text) + ocaml/common/conv.ml",
             "correspondence harness harness/cmd/hC19 (real postprocessors under recover; scripted TCP target; real config decoder, "
